@@ -265,6 +265,8 @@ def gen_tables() -> str:
         funcs.append(f"({lean_str(name)}, {len(params)}, {'true' if var else 'false'})")
     w("/-- registered XPath functions: (name, number of parameters incl. context, last is *args) -/")
     w(f"def xpathFunctions : List (String × Nat × Bool) := [{', '.join(funcs)}]")
+    w("/-- `sys.get_int_max_str_digits()`: longer digit strings make `int()` raise ValueError (0 = no limit) -/")
+    w(f"def intMaxStrDigits : Nat := {sys.get_int_max_str_digits()}")
     w("")
     w("end Delb.Gen")
     return "\n".join(L) + "\n"
